@@ -25,6 +25,21 @@ def resSlots (f : String) : List Nat :=
   | "p_list0" | "p_simple_list" | "p_list1" | "p_simple_list1" | "p_pipeline" => [2]
   | _ => []
 
+/-- the slots an action hands to `_expandword` without looking at the token's type (union over
+    the right-hand-side lengths; a slot that holds a node is harmless) -/
+def wordSlots (f : String) : List Nat :=
+  match f with
+  | "p_word_list" => [1, 2]
+  | "p_pattern" => [1, 3]
+  | "p_simple_command_element" => [1]
+  | _ => []
+
+/-- the type of the token handed to `_expandword`, from the slot facts in the context -/
+macro "word_ty" : tactic => `(tactic| first
+  | exact ‹WordSlot _ 1› _ (And.right ‹_ ∧ _›)
+  | exact ‹WordSlot _ 2› _ (And.right ‹_ ∧ _›)
+  | exact ‹WordSlot _ 3› _ (And.right ‹_ ∧ _›))
+
 /-- one step of the walk through an action -/
 macro "c04_walk_step" W:ident T:ident hC:ident hwf:ident ha:ident hR:ident : tactic => `(tactic| first
   | exact Sat.foreign trivial
@@ -37,8 +52,8 @@ macro "c04_walk_step" W:ident T:ident hC:ident hwf:ident ha:ident hR:ident : tac
   | refine Sat.bind (sat_operatorAt (W := $W) $hC $hwf $ha (by exact $hR _ (by decide))) (fun _ _ => ?_)
   | refine Sat.bind (sat_makeparts (W := $W) $hC $hwf $ha (by assumption)) (fun _ _ => ?_)
   | refine Sat.bind (sat_handleNotImplemented (W := $W) $hC $hwf $ha (by assumption) _) (fun _ _ => ?_)
-  | refine Sat.bind (sat_tokAt (W := $W) $ha _) (fun _ _ => ?_)
-  | refine Sat.bind (Ctx.word (W := $W) $hC _ (by simp_all)) (fun _ _ => ?_)
+  | refine Sat.bind (sat_tokAt2 (W := $W) $ha _) (fun _ _ => ?_)
+  | refine Sat.bind (Ctx.word (W := $W) $hC _ (by simp_all) (by word_ty)) (fun _ _ => ?_)
   | refine Sat.bind (sat_addRedirects (W := $W) (by simp_all) (by simp_all)) (fun _ _ => ?_)
   | refine Sat.bind (sat_mkCompound1 (W := $W) (T := $T) (by intro sp; simp_all)) (fun _ _ => ?_)
   | refine Sat.bind (sat_joinLists_op (W := $W) $hC $hwf $ha (by exact $hR _ (by decide)) _) (fun _ _ => ?_)
@@ -51,8 +66,8 @@ macro "c04_walk_step" W:ident T:ident hC:ident hwf:ident ha:ident hR:ident : tac
   | refine Sat.weaken (sat_operatorAt (W := $W) $hC $hwf $ha (by exact $hR _ (by decide))) (fun _ _ => ?_) (fun _ h => h)
   | refine Sat.weaken (sat_makeparts (W := $W) $hC $hwf $ha (by assumption)) (fun _ _ => ?_) (fun _ h => h)
   | refine Sat.weaken (sat_handleNotImplemented (W := $W) $hC $hwf $ha (by assumption) _) (fun _ _ => ?_) (fun _ h => h)
-  | refine Sat.weaken (sat_tokAt (W := $W) $ha _) (fun _ _ => ?_) (fun _ h => h)
-  | refine Sat.weaken (Ctx.word (W := $W) $hC _ (by simp_all)) (fun _ _ => ?_) (fun _ h => h)
+  | refine Sat.weaken (sat_tokAt2 (W := $W) $ha _) (fun _ _ => ?_) (fun _ h => h)
+  | refine Sat.weaken (Ctx.word (W := $W) $hC _ (by simp_all) (by word_ty)) (fun _ _ => ?_) (fun _ h => h)
   | refine Sat.weaken (sat_addRedirects (W := $W) (by simp_all) (by simp_all)) (fun _ _ => ?_) (fun _ h => h)
   | refine Sat.weaken (sat_mkCompound1 (W := $W) (T := $T) (by intro sp; simp_all)) (fun _ _ => ?_) (fun _ h => h)
   | refine Sat.weaken (sat_joinLists_op (W := $W) $hC $hwf $ha (by exact $hR _ (by decide)) _) (fun _ _ => ?_) (fun _ h => h)
@@ -82,8 +97,11 @@ theorem sound_inputunit (hR : ∀ i ∈ resSlots "p_inputunit", ResSlot args i) 
     Sat (actionCore np "p_inputunit" args) (Post W T) := by
   c04_walk W T np hC hwf ha hR
 
-theorem sound_word_list (hR : ∀ i ∈ resSlots "p_word_list", ResSlot args i) :
+theorem sound_word_list (hR : ∀ i ∈ resSlots "p_word_list", ResSlot args i)
+    (hWS : ∀ i ∈ wordSlots "p_word_list", WordSlot args i) :
     Sat (actionCore np "p_word_list" args) (Post W T) := by
+  have hw1 := hWS 1 (by decide)
+  have hw2 := hWS 2 (by decide)
   c04_walk W T np hC hwf ha hR
 
 theorem sound_redirection_list (hR : ∀ i ∈ resSlots "p_redirection_list", ResSlot args i) :
@@ -154,8 +172,11 @@ theorem sound_case_clause_sequence (hR : ∀ i ∈ resSlots "p_case_clause_seque
     Sat (actionCore np "p_case_clause_sequence" args) (Post W T) := by
   c04_walk W T np hC hwf ha hR
 
-theorem sound_pattern (hR : ∀ i ∈ resSlots "p_pattern", ResSlot args i) :
+theorem sound_pattern (hR : ∀ i ∈ resSlots "p_pattern", ResSlot args i)
+    (hWS : ∀ i ∈ wordSlots "p_pattern", WordSlot args i) :
     Sat (actionCore np "p_pattern" args) (Post W T) := by
+  have hw1 := hWS 1 (by decide)
+  have hw3 := hWS 3 (by decide)
   c04_walk W T np hC hwf ha hR
 
 theorem sound_list (hR : ∀ i ∈ resSlots "p_list", ResSlot args i) :
@@ -211,8 +232,10 @@ theorem sound_simple_list (hR : ∀ i ∈ resSlots "p_simple_list", ResSlot args
 
 omit hp in
 theorem sound_simple_command_element
-    (hR : ∀ i ∈ resSlots "p_simple_command_element", ResSlot args i) :
+    (hR : ∀ i ∈ resSlots "p_simple_command_element", ResSlot args i)
+    (hWS : ∀ i ∈ wordSlots "p_simple_command_element", WordSlot args i) :
     Sat (actionCore np "p_simple_command_element" args) (Post W T) := by
+  have hw1 := hWS 1 (by decide)
   c04_walk W T np hC hwf ha hR
   simp only [Post, GV_nodes, GL_cons, GL_nil, and_true]
   exact G_asg_of_word hC ‹_›
@@ -400,7 +423,7 @@ theorem sound_redirection (hlen : args.length = 2 ∨ args.length = 3) :
   refine Sat.bind (sat_tokAt' ha _) (fun otok hot => ?_)
   obtain ⟨hTo, hso⟩ := hot
   refine Sat.ite (fun hw => ?_) (fun hw => ?_)
-  · refine Sat.bind (Sat.and (hC.word _ hTo) (sat_expandword_pos np otok)) (fun w hw => ?_)
+  · refine Sat.bind (Sat.and (hC.word _ hTo (Or.inl hw)) (sat_expandword_pos np otok)) (fun w hw => ?_)
     simp only [pure_bind]
     have hout : GL W (some w).toList ∧ (w.pos = (otok.lexpos, otok.endlexpos) ∧ RedirIn.none = RedirIn.none) :=
       ⟨by simp [hw.1], hw.2, rfl⟩
@@ -412,13 +435,17 @@ theorem sound_redirection (hlen : args.length = 2 ∨ args.length = 3) :
     redir_tail hC ha hlen hTo hso hout
 
 omit hwf hp in
-theorem sound_redirection_heredoc (hlen : args.length = 2 ∨ args.length = 3) :
+theorem sound_redirection_heredoc (hlen : args.length = 2 ∨ args.length = 3)
+    (hHere : ∀ t, args.getD (args.length - 1) .none = .tok t → t.is .WORD = true) :
     Sat (actionCore np "p_redirection_heredoc" args) (Post W T) := by
   unfold actionCore; simp only []
   refine Sat.bind (sat_tokAt' ha _) (fun wtok hot => ?_)
   obtain ⟨hTo, hso⟩ := hot
+  have hwt : wtok.is .WORD = true := by
+    apply hHere
+    simpa [PCtx.slice, PCtx.len] using hso
   have hout : GL W (some (Node.word (wtok.lexpos, wtok.endlexpos) wtok.valueStr [])).toList := by
-    simp [G_bare hC hTo]
+    simp [G_bare hC hTo hwt]
   refine Sat.ite (fun h3 => ?_) (fun h3 => ?_)
   · refine Sat.bind (sat_strAt' ha 1) (fun s hs => ?_)
     obtain ⟨t1, hT1, hs1, rfl⟩ := hs
